@@ -172,6 +172,23 @@ def run(ctx):
             if ctx.mine(idx):
                 judge(ctx, matcher, {'k': fv}, _md('k', rv), 'core-subclass-values')
                 ctx.count('filter_values_of_subclasses')
+    # byte strings on either side (a digest, a raw token): a bytes filter value is a plain value (equality), text patterns only match text
+    byte_filters = [b'abc', b'a*c', b'v[1]', b'', [b'abc', 'a*'], [b'zz', None], op('=', b'abc'), op('<', b'b'), 'a*c', 'abc', '*']
+    byte_recorded = [b'abc', b'a*c', b'v[1]', b'', 'abc', 'a*c', None, 5, [b'abc'], ABSENT]
+    for fv in byte_filters:
+        for rv in byte_recorded:
+            idx += 1
+            if ctx.mine(idx):
+                judge(ctx, matcher, {'k': fv}, _md('k', rv), 'core-bytes')
+                ctx.count('filters_or_values_that_are_bytes')
+    # the host runs with the framework's loggers at DEBUG: the answers are the same
+    with env.debug_logging():
+        for fv in ATOMS + [[a] for a in ATOMS[18:24]]:
+            for rv in RECORDED:
+                idx += 1
+                if ctx.mine(idx):
+                    judge(ctx, matcher, {'k': fv, 'j': op('>', 3)}, dict(_md('k', rv), j=rv if rv is not ABSENT else 'text'), 'core-debug-logging')
+                    ctx.count('matcher_calls_with_debug_logging')
     ctx.note('exhaustive_core_cases', idx)
     ctx.exhaustive = True  # of the stated core universe; random part below goes beyond
 
